@@ -565,6 +565,90 @@ class Interp:
         s.nref = s.nref + 1
         return s, ref
 
+    # ------------------------------------------------------------------ definitions under binders
+    def under_binder(self, xs, thunk):
+        """Evaluate `thunk()` -> list of trees while xs (z3 constants) are bound variables of an enclosing quantifier or
+        comprehension.  Fresh symbols created meanwhile (comprehension results, witnesses, ...) depend on xs: they are
+        turned into functions of xs, their definitions are universally closed over xs, and the returned trees are
+        rewritten accordingly.  Without this a definition made under a binder would silently denote one fixed value."""
+        n0, c0 = len(self.defs), core._fresh_ctr[0]
+        self._binder_depth = getattr(self, "_binder_depth", 0) + 1
+        try:
+            res = thunk()
+        finally:
+            self._binder_depth -= 1
+        new_defs = self.defs[n0:]
+        if not new_defs:
+            return res
+        del self.defs[n0:]
+        xs = list(xs)
+        xnames = {x.decl().name() for x in xs}
+        def syms_of(e):
+            """(fresh uninterpreted decls, mentions a bound var?) of one expression"""
+            found, dep = {}, False
+            stack, seen = [e], set()
+            while stack:
+                t = stack.pop()
+                if t.get_id() in seen:
+                    continue
+                seen.add(t.get_id())
+                if z3.is_quantifier(t):
+                    stack.append(t.body())
+                elif z3.is_app(t):
+                    d = t.decl()
+                    if d.kind() == z3.Z3_OP_UNINTERPRETED:
+                        nm = d.name()
+                        if nm in xnames:
+                            dep = True
+                        elif "!" in nm:
+                            try:
+                                idx = int(nm.rsplit("!", 1)[1])
+                            except ValueError:
+                                idx = -1
+                            if idx > c0:
+                                found[nm] = d
+                    stack.extend(t.children())
+            return found, dep
+        info = [syms_of(d) for d in new_defs]
+        # only definitions that (transitively) depend on the bound variables are lifted
+        dependent = [dep for _, dep in info]
+        dep_syms = {}
+        changed = True
+        while changed:
+            changed = False
+            for i, (found, _) in enumerate(info):
+                if dependent[i]:
+                    for nm, d in found.items():
+                        if nm not in dep_syms:
+                            dep_syms[nm] = d
+                            changed = True
+                elif any(nm in dep_syms for nm in found):
+                    dependent[i] = True
+                    changed = True
+        for i, d in enumerate(new_defs):
+            if not dependent[i]:
+                self.defs.append(d)
+        new_defs = [d for i, d in enumerate(new_defs) if dependent[i]]
+        decls = dict(dep_syms)
+        const_sub, fun_sub = [], []
+        for nm, d in decls.items():
+            dom = [x.sort() for x in xs] + [d.domain(i) for i in range(d.arity())]
+            F = z3.Function(core.fresh_name(nm.split("!")[0] + "_of"), *(dom + [d.range()]))
+            if d.arity() == 0:
+                const_sub.append((d(), F(*xs)))
+            else:
+                fun_sub.append((d, F(*(xs + [z3.Var(i, d.domain(i)) for i in range(d.arity())]))))
+
+        def rw(e):
+            if fun_sub:
+                e = z3.substitute_funs(e, *fun_sub)
+            if const_sub:
+                e = z3.substitute(e, *const_sub)
+            return e
+        for d in new_defs:
+            self.defs.append(z3.ForAll(xs, rw(d)))
+        return [core.tmap(rw, tr) for tr in res]
+
     def define(self, axioms):
         """definitional axioms about fresh symbols (conservative extensions); attached to an obligation only
         when one of their symbols occurs in it"""
@@ -898,6 +982,13 @@ class Interp:
             if c and attr in c["fields"]:
                 k = c["fields"][attr]
                 return SV(k, tselect(self.heap_get(st, cls, attr), base.tree), ("fld", base.tree, cls, attr))
+            if c and attr in (c.get("funcs") or {}):
+                # a function-valued field with an assumed representation invariant: calling it is the spec lambda with
+                # `self` bound (justified per class in the contract file)
+                lam = self.cset.parse_expr(c["funcs"][attr])
+                return LambdaVal(ast.Lambda(args=ast.arguments(posonlyargs=[], args=lam.args.args[1:], kwonlyargs=[], kw_defaults=[],
+                                                                 defaults=[], vararg=lam.args.vararg), body=lam.body),
+                                 self._bind_self_frame(st, lam.args.args[0].arg, base), self.cset.spec_mod)
             mod = self.class_module(cls)
             q = "%s.%s" % (cls, attr)
             if mod is not None and q in mod.funcs:
@@ -917,6 +1008,12 @@ class Interp:
         if isinstance(base, (SV, ViewVal, tuple, list, set, dict, str)) or base is None:
             return BoundBuiltin(base, attr)
         raise Unsupported("attribute %s on %r" % (attr, base))
+
+    def _bind_self_frame(self, st, name, obj):
+        """a fresh frame (registered in the shared frame table of this state's lineage) holding `name` = obj"""
+        fid = max(st.frames) + 1000 + len(getattr(self, "_synthetic_frames", {}))
+        self.__dict__.setdefault("_synthetic_frames", {})[fid] = ({name: obj}, None, self.cset.spec_mod)
+        return fid
 
     def class_module(self, cls):
         c = self.cset.classes.get(cls)
@@ -1359,6 +1456,12 @@ class Interp:
             key = to_key(kk, self.coerce(item, kk, what="membership key").tree)
             arr = cont.tree if t == "set" else cont.tree[0]
             return z3.Select(arr, key)
+        if t == "list" and z3.is_int_value(z3.simplify(cont.tree[0])) and z3.simplify(cont.tree[0]).as_long() <= 16:
+            # a list of statically known length (a literal): plain disjunction
+            n = z3.simplify(cont.tree[0]).as_long()
+            ek = cont.kind.args[0]
+            elts = [SV(ek, tmap(lambda a, i=i: z3.simplify(z3.Select(a, z3.IntVal(i))), cont.tree[1])) for i in range(n)]
+            return z3.Or(*[self.py_eq(item, x) for x in elts]) if elts else z3.BoolVal(False)
         if t == "list":
             ek = cont.kind.args[0]
             try:
@@ -1371,9 +1474,12 @@ class Interp:
                 cache = self.__dict__.setdefault("_list_sets", {})
                 key = tuple(l.get_id() for l in core.tleaves(cont.tree))
                 if key not in cache:
-                    cache[key] = self.to_set_value(None, SV(cont.kind, cont.tree))
-                    cache[("keep", key)] = cont.tree        # keep the terms alive: ids are only unique among live terms
-                sset = cache[key]
+                    sset = self.to_set_value(None, SV(cont.kind, cont.tree))
+                    if getattr(self, "_binder_depth", 0) == 0:      # definitions made under a binder are lifted: not reusable
+                        cache[key] = sset
+                        cache[("keep", key)] = cont.tree    # keep the terms alive: ids are only unique among live terms
+                else:
+                    sset = cache[key]
                 return z3.Select(sset.tree, to_key(ek, self.coerce(self.tup_to_sv(item), ek, what="membership").tree))
             i = z3.Int(core.fresh_name("i"))
             elt = SV(ek, tselect(cont.tree[1], i))
